@@ -314,6 +314,17 @@ func c16Cands(pred string, a []*term.Term, fr *c16Fresh, lim int) ([][]*term.Ter
 			}
 			return cs, c16Status{Mode: true, Inf: true}
 		}
+	case "append_chain":
+		// append(Xs, Ys, Z), append(Z, [e1], W1), append(Z, [e2,e3], W2), append(Z, [e4], W3) with Xs, Ys proper lists: the
+		// results of append/3 are terms like any other - extending Z again leaves Z, W1 and W2 what they are
+		xs, xt := term.ListElems(a[0])
+		ys, yt := term.ListElems(a[1])
+		if !xt.IsAtom("[]") || !yt.IsAtom("[]") {
+			return nil, c16Out
+		}
+		zs := c16Cat(xs, ys)
+		e := func(k int) *term.Term { return term.A(fmt.Sprintf("e%d", k)) }
+		add(a[0], a[1], term.L(zs...), term.L(c16Cat(zs, []*term.Term{e(1)})...), term.L(c16Cat(zs, []*term.Term{e(2), e(3)})...), term.L(c16Cat(zs, []*term.Term{e(4)})...))
 	case "length":
 		if !c16VarOr(a[1], c16IsNat) {
 			return nil, c16Out
@@ -1024,6 +1035,21 @@ func (g *c16Gen) exhaustive() []*c16Scn {
 			}
 		}
 	}
+	for nx := 0; nx <= 6; nx++ {
+		for ny := 0; ny <= 3; ny++ {
+			var xs, ys []*term.Term
+			for i := 0; i < nx; i++ {
+				xs = append(xs, term.A(fmt.Sprintf("x%d", i)))
+			}
+			for i := 0; i < ny; i++ {
+				ys = append(ys, term.A(fmt.Sprintf("y%d", i)))
+			}
+			zs := c16Cat(xs, ys)
+			w1 := term.L(c16Cat(zs, []*term.Term{term.A("e1")})...)
+			out = append(out, &c16Scn{Pred: "append_chain", Family: fam, Cap: 8, Choices: [][]*term.Term{
+				{term.L(xs...)}, {term.L(ys...)}, {c16V(2), term.L(zs...)}, {c16V(3), w1}, {c16V(4)}, {c16V(5), term.L(c16Cat(zs, []*term.Term{term.A("e4")})...), w1}}})
+		}
+	}
 	abc := []*term.Term{term.A("a"), term.A("b"), term.A("c")}
 	for _, l := range c16Lists(abc, 3) {
 		out = append(out, g.length(l, fam), g.nth("nth0", l, fam, 0), g.nth("nth1", l, fam, 0), g.member(l, fam), g.selectScn(l, fam, 0))
@@ -1346,6 +1372,9 @@ func (g *c16Gen) item(s *c16Scn) *Item {
 		}
 	}
 	c := &proto.Case{Kind: "relations"} // kind "prolog" + verif_seen/1 (cmd/vworker/relcase.go)
+	if s.Pred == "append_chain" {
+		c.Setup = []string{"append_chain(Xs, Ys, Z, W1, W2, W3) :- append(Xs, Ys, Z), append(Z, [e1], W1), append(Z, [e2, e3], W2), append(Z, [e4], W3).\n"}
+	}
 	for k, call := range calls {
 		by := int64(k+1) * 1000
 		args := make([]*term.Term, len(call.Args))
